@@ -44,6 +44,9 @@ func openBackend(a *app.App, o lsOpts) (*app.Session, func()) {
 		cfg.SessionId = "s1"
 	}
 	s := app.NewSession(a, cfg, app.Persisted)
+	if o.Mode == "long-lived-persister" {
+		s.Mode = app.KeptEngine
+	}
 	s.FinishOnError = true
 	cleanup := func() {}
 	switch o.Backend {
